@@ -17,6 +17,10 @@ before form, form after the stream was read).  Its violation keys start with "Bo
 Accept family: tokens / grammar with region tags next to every spelling of q=0; the Accept-class positions are also
 called with offers derived from the header under test (hostile.derive_offers: ranges, primary tags, regional variants,
 MIME generalisations, charset aliases, one unrelated offer; singletons, ordered pairs, full list, with / without default).
+Ext family (spec/hostile/HostileExt.tla): RFC 2231 / 8187 extended parameters name*=charset'lang'value and continuations,
+charset labels from real codec names, spelling variants and non-codecs, always with percent-escaped values; fed to
+parse_options_header / parse_dict_header / parse_accept_header, CONTENT_TYPE and Accept slots, and as Content-Disposition /
+Content-Type of a multipart part (function "RequestPart", keys "Part<clause>").
 The driver adds seeded random token sequences (longer, and across families) drawn from the exported
 token tables.  Python records type signatures / exception class names only.
 """
@@ -72,6 +76,8 @@ def judge_classes(ctx: Ctx, classes, kind="c07"):
         what = ln["ty"][r["w"] - 1][0] if ln["kd"][r["w"] - 1] != 0 else "|".join(ln["ty"][r["w"] - 1])
         where = ln["fn"] + ("@" + ln["slot"] if ln["fn"] == "Request" else "")
         key = f"{where}:{pos}:{r['clause']}:{what}"
+        if ln["fn"] == "RequestPart":
+            key = f"Part{r['clause']}:{ln['slot']}:{pos}:{what}"
         if ln["fn"] == "RequestBody":   # body family: its own clause prefix; the CONTENT_LENGTH variant is not part of the key
             key = f"Body{r['clause']}:{ln['slot'].split('|')[0]}:{pos}:{what}"
         ex = _text(ln["ex"][0])
@@ -87,7 +93,7 @@ def judge_classes(ctx: Ctx, classes, kind="c07"):
             cur["n"] += ln["n"]
     ctx.notes.setdefault("rejected_keys", []).extend(sorted(seen))
     for key, case in sorted(seen.items()):
-        ctx.violation(key, key.split(":")[0] if key.startswith("Body") else key.split(":")[2], case, kind=kind)
+        ctx.violation(key, key.split(":")[0] if key.startswith(("Body", "Part")) else key.split(":")[2], case, kind=kind)
     return lines[len(sch):]
 
 
@@ -164,6 +170,14 @@ def run(ctx: Ctx):
                 if mode == "seq" and ntok <= 1:
                     trivial.add(s)
                 continue
+            if fam == "ext":     # extended parameters also travel in the headers of a multipart part
+                if q:            # quick: one of the four Request slots and two part slots per text
+                    pick = rng.choice(tb["slots"] + H.PART_SLOTS)
+                    items.append(("RequestPart", pick, s) if pick in H.PART_SLOTS else ("Request", pick, s))
+                    if mode == "seq" and ntok <= 1:
+                        trivial.add(s)
+                    continue
+                items += [("RequestPart", sl, s) for sl in H.PART_SLOTS]
             slots = tb["slots"]
             if mode == "seq" and ntok >= 3:
                 slots = rng.sample(slots, 1)
